@@ -1,5 +1,11 @@
 """C19 (BumpPool hands every arena to one user at a time).
 
+(Probe schedules: besides the schedules of the model as the code is -- arena created inside get's critical section -- TLC also
+emits schedules of the variant that creates outside it; the controller then really sends a thread for the pool mutex while
+another thread is parked inside the base allocator's first `allocate` of a new arena.  On the real pool that thread falls
+asleep on the mutex -- detected from its scheduler state in /proc, no clock -- and the creator is let through first; if it
+gets the mutex instead, a guard drop can complete inside the window and the creation is observed with an idle arena.)
+
 1. TLC model-checks spec/Pool.tla (MC_Pool*.cfg): exclusivity, idle/held disjointness, conservation of arenas,
    reuse-before-create (created <= peak number of simultaneous owners), data intact, reset/drop semantics, liveness
    under weak fairness; -coverage 1 makes sure no action is dead.
@@ -20,23 +26,30 @@ ACTIONS = ["GetCall", "GetLock", "GetPop", "GetCreateBegin", "GetCreateEnd", "Ge
 
 # (cfg, workers); every cfg is a complete (exhaustive) exploration of its instance
 MC = {
-    "quick": [("MC_Pool.cfg", 4), ("MC_Pool_reset.cfg", 2), ("MC_Pool_outside.cfg", 2), ("MC_Pool_forget.cfg", 1)],
+    "quick": [("MC_Pool.cfg", 4), ("MC_Pool_reset.cfg", 2), ("MC_Pool_forget.cfg", 1)],
     "thorough": [("MC_Pool_thorough.cfg", 6), ("MC_Pool_thorough4.cfg", 3), ("MC_Pool_reset_thorough.cfg", 3),
-                 ("MC_Pool_outside_thorough.cfg", 3), ("MC_Pool_forget_thorough.cfg", 3), ("MC_Pool_forget_thorough3.cfg", 2),
-                 ("MC_Pool.cfg", 2), ("MC_Pool_reset.cfg", 1), ("MC_Pool_outside.cfg", 1), ("MC_Pool_forget.cfg", 1)],
+                 ("MC_Pool_forget_thorough.cfg", 3), ("MC_Pool_forget_thorough3.cfg", 2),
+                 ("MC_Pool.cfg", 2), ("MC_Pool_reset.cfg", 1), ("MC_Pool_forget.cfg", 1)],
 }
 # TLC's coverage statistics cost a factor of several on big models: they are collected on the quick configurations only
 # (which the thorough tier runs as well and which together take every action)
-COVERAGE_CFGS = {"MC_Pool.cfg", "MC_Pool_reset.cfg", "MC_Pool_outside.cfg", "MC_Pool_forget.cfg"}
+COVERAGE_CFGS = {"MC_Pool.cfg", "MC_Pool_reset.cfg", "MC_Pool_forget.cfg"}
+# configurations that TLC must REFUTE (cfg -> the property / invariant whose violation is expected): they document what the
+# property needs -- the naive reading of "peak", and the variant of the pool that creates arenas outside the critical section
+EXPECTED_REFUTATIONS = {"MC_Pool_naive.cfg": "NaiveReuse", "MC_Pool_outside.cfg": "CreatedOnlyWhenIdleEmpty",
+                        "MC_Pool_outside_peak.cfg": "ReuseOK"}
 # schedule emission: (spec, threads, rounds, poolops, mayfail, mayforget, simulate-num or None)
 EMIT = {
     "quick": [("PSpec", "{1, 2}", 2, 0, "TRUE", "FALSE", None), ("PSpec", "{1, 2, 3}", 1, 0, "TRUE", "TRUE", None),
-              ("PSpec", "{1, 2}", 1, 1, "TRUE", "FALSE", None), ("SSpec", "{1, 2, 3}", 3, 2, "TRUE", "TRUE", 120)],
+              ("PSpec", "{1, 2}", 1, 1, "TRUE", "FALSE", None), ("SSpec", "{1, 2, 3}", 3, 2, "TRUE", "TRUE", 120),
+              # PROBE schedules: generated from the variant that creates outside the critical section (CreateUnderLock = FALSE)
+              ("PSpec", "{1, 2}", 2, 0, "FALSE", "FALSE", None, "FALSE"), ("SSpec", "{1, 2, 3}", 2, 1, "TRUE", "FALSE", 60, "FALSE")],
     "thorough": [("PSpec", "{1, 2}", 2, 0, "TRUE", "TRUE", None), ("PSpec", "{1, 2, 3}", 1, 0, "TRUE", "TRUE", None),
                  ("PSpec", "{1, 2}", 1, 1, "TRUE", "TRUE", None), ("PSpec", "{1, 2}", 3, 0, "FALSE", "FALSE", None),
                  ("PSpec", "{1, 2}", 1, 2, "TRUE", "FALSE", None),
                  ("SSpec", "{1, 2, 3}", 3, 2, "TRUE", "TRUE", 1500), ("SSpec", "{1, 2, 3, 4}", 2, 1, "TRUE", "TRUE", 800),
-                 ("SSpec", "{1, 2}", 4, 3, "TRUE", "TRUE", 500)],
+                 ("SSpec", "{1, 2}", 4, 3, "TRUE", "TRUE", 500),
+                 ("PSpec", "{1, 2}", 2, 0, "FALSE", "FALSE", None, "FALSE"), ("SSpec", "{1, 2, 3}", 3, 2, "TRUE", "TRUE", 600, "FALSE")],
 }
 FREE_RUNS = {"quick": 40, "thorough": 400}
 
@@ -80,7 +93,8 @@ def model_check(tier, ex):
     thorough = tier == "thorough"
     futs = [ex.submit(_mc_one, (cfg, w, thorough)) for (cfg, w) in MC[tier]]
     futs.append(ex.submit(lambda: ("MC_Pool_live.cfg", tlc("MC_Pool", "MC_Pool_live.cfg", workers=1, timeout=900), {})))
-    futs.append(ex.submit(lambda: ("MC_Pool_naive.cfg", tlc("MC_Pool", "MC_Pool_naive.cfg", workers=1, timeout=600), {})))
+    for cfg in EXPECTED_REFUTATIONS:
+        futs.append(ex.submit(lambda cfg=cfg: (cfg, tlc("MC_Pool", cfg, workers=1, timeout=600), {})))
     return futs
 
 
@@ -88,11 +102,10 @@ def collect_mc(futs):
     res = {"configs": [], "states": 0, "transitions": 0, "coverage": {a: 0 for a in ACTIONS}}
     for f in futs:
         cfg, r, cov = f.result()
-        if cfg == "MC_Pool_naive.cfg":
-            # the deliberately wrong reading of "peak" must be refuted by TLC (documents what peak has to count)
-            if not (r.error and "NaiveReuse" in r.error):
-                raise ToolError("MC_Pool_naive: TLC did not refute the naive peak invariant:\n" + r.out[-2000:])
-            res["naive_peak_refuted"] = True
+        if cfg in EXPECTED_REFUTATIONS:
+            if not (r.error and EXPECTED_REFUTATIONS[cfg] in r.error and "violated" in r.error):
+                raise ToolError("%s: TLC did not refute %s:\n%s" % (cfg, EXPECTED_REFUTATIONS[cfg], r.out[-2000:]))
+            res.setdefault("expected_refutations", {})[cfg] = EXPECTED_REFUTATIONS[cfg] + " refuted by TLC"
             continue
         require_ok(r, cfg)
         res["configs"].append({"cfg": cfg, "distinct": r.distinct, "generated": r.generated, "depth": r.depth,
@@ -115,12 +128,14 @@ def collect_mc(futs):
 # ------------------------------------------------------------------------------------------------
 
 def _emit_one(args):
-    k, (spec, threads, rounds, poolops, mayfail, mayforget, sim), sd, thorough = args
+    k, e, sd, thorough = args
+    spec, threads, rounds, poolops, mayfail, mayforget, sim = e[:7]
+    cul = e[7] if len(e) > 7 else "TRUE"
     cfg = ".gen_pool_emit_%d_%d.cfg" % (os.getpid(), k)
     with open(os.path.join(SPEC, cfg), "w") as f:
         f.write("SPECIFICATION %s\nCONSTANTS\n    Threads = %s\n    MaxRounds = %d\n    MaxChunks = 100\n"
-                "    MaxPoolOps = %d\n    CreateUnderLock = TRUE\n    MayFail = %s\n    MayForget = %s\nINVARIANT Emit\n"
-                % (spec, threads, rounds, poolops, mayfail, mayforget))
+                "    MaxPoolOps = %d\n    CreateUnderLock = %s\n    MayFail = %s\n    MayForget = %s\nINVARIANT Emit\n"
+                % (spec, threads, rounds, poolops, cul, mayfail, mayforget))
     try:
         if sim:
             r = tlc("MC_PoolSched", cfg, workers=1, timeout=2400 if thorough else 600, simulate=sim, depth=1500,
@@ -138,14 +153,14 @@ def _emit_one(args):
         raise ToolError("schedule emission %s %s produced nothing" % (spec, threads))
     nthreads = threads.count(",") + 1
     return {"spec": spec, "threads": nthreads, "rounds": rounds, "poolops": poolops, "mayfail": mayfail == "TRUE",
-            "mayforget": mayforget == "TRUE",
+            "mayforget": mayforget == "TRUE", "probe": cul == "FALSE",
             "simulate": sim, "exhaustive": sim is None, "schedules": len(hists), "distinct_states": r.distinct,
             "wall_s": round(r.wall, 1)}, hists
 
 
-def schedule_to_input(run, nthreads, hist, settings):
+def schedule_to_input(run, nthreads, hist, settings, mode="forced"):
     """TLC behaviour (list of [thread, label, arg]) -> harness input lines + expected points per phase."""
-    lines = ["R %d %d forced %d" % (run, nthreads, settings)]
+    lines = ["R %d %d %s %d" % (run, nthreads, mode, settings)]
     phase = 0
     steps, vias, expect = [], {}, []
     cur_round = {}
@@ -167,7 +182,7 @@ def schedule_to_input(run, nthreads, hist, settings):
             continue
         if label == "GetCall":
             r = len(vias.setdefault(t, []))
-            vias[t].append((t + r + phase) % 6)
+            vias[t].append((t + r + phase + run) % 6)   # rotate through get / try_get / get_with_size / ... over the runs
             cur_round[t] = r
         tok = str(t)
         if label == "GetCreateFail":
@@ -513,8 +528,9 @@ def check_c19(tier):
         for info, hists in emitted:
             for h in hists:
                 rid += 1
-                lines, expect = schedule_to_input(rid, info["threads"], h, rid % 2)
-                runs.append({"run": rid, "mode": "forced", "lines": lines, "expect": expect, "hist": h})
+                mode = "probe" if info["probe"] else "forced"
+                lines, expect = schedule_to_input(rid, info["threads"], h, (rid // 6) % 2, mode)
+                runs.append({"run": rid, "mode": mode, "lines": lines, "expect": expect, "hist": h})
         nforced = len(runs)
         for _ in range(FREE_RUNS[tier]):
             rid += 1
@@ -526,6 +542,7 @@ def check_c19(tier):
         log("[C19] model checking done: %d distinct states (%.0fs)" % (mc["states"], time.time() - t0))
     # ---- linearise
     traces, nev, sched_mismatch, seq_merged = [], 0, [], 0
+    nprobes = nprobes_blocked = 0
     for r in runs:
         evs = events.get(r["run"])
         if evs is None:
@@ -533,7 +550,12 @@ def check_c19(tier):
         merged, info = merge_run(evs)
         traces.append((r["run"], merged))
         nev += len(merged)
-        if r["mode"] == "forced":
+        if r["mode"] == "probe":
+            # the schedule comes from the variant of the model in which the mutex is free while an arena is being created;
+            # on the real pool the probing thread must find the mutex taken (blocked) every time
+            nprobes += sum(x["probes"] for x in evs if x["ev"] == "sched")
+            nprobes_blocked += sum(x["blocked"] for x in evs if x["ev"] == "sched")
+        elif r["mode"] == "forced":
             seq_merged += 1 if info["seq_order"] else 0
             executed = [(s["ph"], st[0], st[1]) for s in evs if s["ev"] == "sched" for st in s["steps"]]
             bad = any(s["skipped"] or s["blocked"] or s["extra"] for s in evs if s["ev"] == "sched") or \
@@ -600,8 +622,10 @@ def check_c19(tier):
         "model_checking": mc,
         "schedule_emission": [i for i, _ in emitted],
         "forced_schedules_executed": nforced, "free_running_runs": len(runs) - nforced,
+        "probe_schedules_executed": sum(1 for r in runs if r["mode"] == "probe"),
+        "lock_probes_while_an_arena_was_being_created": nprobes, "lock_probes_that_found_the_mutex_held": nprobes_blocked,
         "runs_recorded": len(traces), "events_recorded": nev,
-        "forced_runs_validated_in_execution_order": nforced - seq_merged,
+        "forced_runs_validated_in_execution_order": sum(1 for r in runs if r["mode"] == "forced") - seq_merged,
         "accepted_by_trace_spec": len(accepted), "rejected_by_trace_spec": len(rejected),
         "contract_violations": len(viol_runs), "model_drift_runs": len(drift_runs),
         "not_examined_by_trace_spec_after_rejections": len(unexamined),
@@ -609,13 +633,17 @@ def check_c19(tier):
         "negative_controls": neg,
         "explanation": "TLC explores every interleaving of Pool.tla for the instances listed under model_checking (invariants: exclusivity, "
                        "idle/held disjointness, conservation, created <= peak owners, data intact; action properties for reset/drop; "
-                       "liveness under WF; the naive reading of 'peak' is refuted). The same specification generates schedules that are "
+                       "liveness under WF; at the instant an arena is created no arena is idle; the naive reading of 'peak' and the "
+                       "variant that creates arenas outside the critical section are refuted). The same specification generates schedules that are "
                        "forced on real threads through the cfg(bump_scope_verif) hooks; every recorded execution (forced and free-running) "
                        "is validated by TLC against PoolTrace.tla (behaviour of the model, all invariants in every state) and "
                        "PoolContract.tla (C19 clauses as predicates over observed values).",
     }
     write_evidence(PID, tier, "model_checking", cov, time.time() - t0, violations=len(out.violations), assumptions=[
-        "schedules are forced only at the hook points (before lock, lock held, allocator clone, after unlock) and harness points",
+        "schedules are forced only at the hook points (before lock, lock held, after unlock), inside the base allocator's first "
+        "allocate of a new arena, and at harness points",
+        "idle arenas at the instant of creation are bounded from below by (completed pushes) - (gets that entered their critical "
+        "section with a non-empty idle vector), both counters read inside that allocate call",
         "arena identity = id carried by the base-allocator handle cloned for the arena + interned address of its first chunk",
         "the order of critical sections is the sequence number taken inside the POOL_LOCK_HELD hook (pool mutex held); no clock is used",
         "'exactly as the single-arena operations do' is observed against a standalone Bump (twin) fed the same allocations, "
